@@ -953,9 +953,10 @@ impl TextPane for Buffer {
                     }
                     if !cur_layer.properties.has_alpha_channel {
                         let mut res = merge(AttributedChar::default().with_font_page(default_font_page), ch_opt, attr_opt);
-                        if ch_opt.is_some() || attr_opt.is_some() {
-                            transparent_char = Some(res);
-                            res = AttributedChar::default();
+                        if attr_opt.is_some() {
+                            // nothing beneath an opaque layer is seen: a transparent colour of the override shows a blank cell
+                            // (a transparent cell remembered from a layer above is kept, it is filled from `res`)
+                            res = self.make_solid_color(res, AttributedChar::default());
                         }
                         if let Some(transparent_char) = transparent_char {
                             return self.make_solid_color(transparent_char, res);
